@@ -18,6 +18,7 @@ use std::{cmp, thread};
 use std::fs::{self, canonicalize, create_dir_all, read_link, File, Metadata};
 use std::path::{Path, PathBuf};
 use std::sync::Arc;
+use std::sync::atomic::{AtomicBool, Ordering};
 
 use crossbeam_channel as cbc;
 use libfs::{
@@ -38,6 +39,7 @@ pub struct CopyHandle {
     pub outfd: File,
     pub metadata: Metadata,
     pub config: Arc<Config>,
+    finalised: AtomicBool,
 }
 
 impl CopyHandle {
@@ -63,6 +65,7 @@ impl CopyHandle {
             outfd,
             metadata,
             config: config.clone(),
+            finalised: AtomicBool::new(false),
         };
 
         Ok(handle)
@@ -131,6 +134,17 @@ impl CopyHandle {
         Ok(total)
     }
 
+    /// Apply the requested permissions, timestamps, ownership and
+    /// sync to the destination, returning any failure to the
+    /// caller. If this is never called it happens when the handle is
+    /// dropped, where errors can only be logged.
+    pub fn finalise(&self) -> Result<()> {
+        if self.finalised.swap(true, Ordering::SeqCst) {
+            return Ok(());
+        }
+        self.finalise_copy()
+    }
+
     fn finalise_copy(&self) -> Result<()> {
         if !self.config.no_perms {
             copy_permissions(&self.infd, &self.outfd)?;
@@ -152,6 +166,9 @@ impl CopyHandle {
 impl Drop for CopyHandle {
     fn drop(&mut self) {
         // FIXME: Should we check for panicking() here?
+        if self.finalised.swap(true, Ordering::SeqCst) {
+            return;
+        }
         if let Err(e) = self.finalise_copy() {
             error!("Error during finalising copy operation {:?} -> {:?}: {}", self.infd, self.outfd, e);
         }
